@@ -309,7 +309,43 @@ def mod_import(draw, c):
     invalid = [('import', '<m%d><i:ie>abc</i:ie><w><i:in>1</i:in></w></m%d>' % (i, i)), ('import', '<m%d><i:ie>AB</i:ie><w i:ia="x"><i:in>1</i:in></w></m%d>' % (i, i)), ('import', '<m%d><ie>AB</ie><w><i:in>1</i:in></w></m%d>' % (i, i))]
     return dict(decls='', particle=part, valid=valid, invalid=invalid, kinds={'import', 'facet:pattern'}, imported=imp)
 
-MODULES = [mod_simple, mod_simple, mod_simple, mod_attrs, mod_group, mod_all, mod_wild, mod_ext, mod_simplecontent, mod_mixed_empty, mod_subst, mod_values, mod_idc, mod_idc,
+# ---- long strings: values that straddle and exceed the 8192-byte buffer of XSerializeEngine (a string of n UTF-16 units is written
+# as 2n bytes in one write(const XMLByte*, size) call) -- documentation, enumeration, default / fixed, pattern, notation identifiers
+LONG_UNITS = [9000, 4500, 13000, 6000, 20000, 4097, 8192, 3000]        # (Hypothesis favours the first entries)
+def longstr(units, cls, salt):
+    """deterministic non-periodic string of exactly `units` UTF-16 code units; no markup characters, no white space"""
+    out = []; k = 0; i = 0
+    while k < units:
+        t = '%x.' % (i * i + salt * 7919 + 13 * i)
+        if cls == 'mixed' and i % 3 == 1: t += chr(0x4E00 + (i * 37 + salt) % 4000)
+        if cls == 'mixed' and i % 5 == 2 and k + len(t) + 2 <= units: t += chr(0x10000 + (i * 11 + salt) % 3000); k += 1
+        out.append(t); k += len(t); i += 1
+    r = ''.join(out)
+    # cut to the exact number of units without splitting a surrogate pair
+    n = 0; j = 0
+    while j < len(r) and n + (2 if ord(r[j]) > 0xFFFF else 1) <= units:
+        n += 2 if ord(r[j]) > 0xFFFF else 1; j += 1
+    r = r[:j]
+    return r + 'z' * (units - n)
+
+def mod_long(draw, c):
+    i = c['i']; tp = c['tp']
+    def L(salt, ascii_only=False):
+        return longstr(S(draw, LONG_UNITS), 'ascii' if ascii_only else S(draw, ['mixed', 'ascii']), salt + 10 * i)
+    doc = L(1); e1 = L(2); dflt = L(3); fixed = L(4); pub = L(5, True); sysid = L(6)
+    alts = longstr(S(draw, [4500, 3000, 9000]), 'ascii', 7 + i).strip('.').split('.')
+    pat = 'k(' + '|'.join(alts) + ')'
+    d = ('<xs:simpleType name="le%d"><xs:annotation><xs:documentation>%s</xs:documentation></xs:annotation><xs:restriction base="xs:string">'
+         '<xs:enumeration value="%s"/><xs:enumeration value="short"/></xs:restriction></xs:simpleType>'
+         '<xs:simpleType name="lp%d"><xs:restriction base="xs:string"><xs:pattern value="%s"/></xs:restriction></xs:simpleType>'
+         '<xs:notation name="ln%d" public="%s" system="%s"/>' % (i, doc, e1, i, pat, i, pub, sysid))
+    part = ('<xs:element name="m%d"><xs:complexType><xs:attribute name="d" type="xs:string" default="%s"/><xs:attribute name="f" type="xs:string" fixed="%s"/>'
+            '<xs:attribute name="e" type="%sle%d"/><xs:attribute name="p" type="%slp%d"/></xs:complexType></xs:element>' % (i, dflt, fixed, tp, i, tp, i))
+    valid = ['<m%d/>' % i, '<m%d e="%s"/>' % (i, e1), '<m%d f="%s" p="k%s"/>' % (i, fixed, alts[-1]), '<m%d e="short" p="k%s"/>' % (i, alts[len(alts) // 2])]
+    invalid = [('facet:enumeration', '<m%d e="%sQ"/>' % (i, e1[:-1])), ('fixed', '<m%d f="%sQ"/>' % (i, fixed[:-1])), ('facet:pattern', '<m%d p="kzz"/>' % i)]
+    return dict(decls=d, particle=part, valid=valid, invalid=invalid, kinds={'long-string', 'facet:enumeration', 'facet:pattern', 'fixed', 'default', 'notation', 'annotation'})
+
+MODULES = [mod_long, mod_long, mod_simple, mod_simple, mod_simple, mod_attrs, mod_group, mod_all, mod_wild, mod_ext, mod_simplecontent, mod_mixed_empty, mod_subst, mod_values, mod_idc, mod_idc,
            mod_notation, mod_recursive, mod_counting, mod_import]
 PLAIN_KINDS = {'occurs'}       # everything else is "beyond plain elements/attributes"
 
@@ -459,6 +495,11 @@ def gen_dtd(draw, idx=0):
         decls.append('<!ENTITY ext SYSTEM "ext%d.ent">' % idx); kinds.add('dtd:external-entity')
     if pe and B(draw):
         decls.append('<![INCLUDE[<!ATTLIST a inc CDATA "1">]]><![IGNORE[<!ELEMENT zz ANY>]]>'); kinds.add('dtd:conditional')
+    if I(draw, 0, 2) == 0:
+        cls = S(draw, ['mixed', 'ascii'])
+        decls.append('<!ENTITY big "%s"><!ATTLIST a bigd CDATA "%s"><!NOTATION bign PUBLIC "%s" "%s">'
+                     % (longstr(S(draw, LONG_UNITS), cls, 21 + idx), longstr(S(draw, LONG_UNITS), cls, 22 + idx), longstr(S(draw, LONG_UNITS), 'ascii', 23 + idx), longstr(S(draw, LONG_UNITS), cls, 24 + idx)))
+        kinds.add('dtd:long-string')
     decls.append('<!-- comment --><?pi in dtd?>')
     return dict(type='dtd', text='\n'.join(decls), sysid='mem:/g%d.dtd' % idx, files={'ext%d.ent' % idx: '<?xml version="1.0" encoding="UTF-8"?>ext text<b/>'}, models=models, atts=atts, kinds=kinds, has_not=has_not)
 
